@@ -30,6 +30,8 @@ var dirSwaps = map[string]map[string][2]string{
 	"lib/atomicfile":    {"runtime": {"runtime", modPath + "/zz_verif/simruntime"}},
 	"cmdline/remotecmd": {"net": {"net", modPath + "/zz_verif/simnet"}},
 	"lib/audit":         {"github.com/streadway/amqp": {"amqp", modPath + "/zz_verif/simamqp"}},
+	// the timestamp client builds its own http.Transport
+	"lib/pkcs9/tsclient": {"net/http": {"http", modPath + "/zz_verif/simhttp"}},
 	// the worker child process: os/exec, the descriptors handed to the child, kill(2) and the listening socket
 	"token/worker": {
 		"os/exec": {"exec", modPath + "/zz_verif/simexec"},
@@ -48,6 +50,97 @@ var tickDirs = map[string]bool{
 var skipDirs = map[string]bool{
 	".git": true, "zz_verif": true, "functest": true, "doc": true, "distro": true, "scripts": true,
 	"internal/activation": true,
+}
+
+// package state that the simulator has to forget between runs (one relic
+// process = one configuration; the simulator hosts many): for each listed
+// source file a function is generated that gives every package-level variable
+// declared there its initial value again.  It is generated from the file as it
+// is now, so that renaming or retyping those variables does not break the build.
+var resetFuncs = map[string]string{
+	"internal/signinit/timestamper.go": "ZZResetTimestamper",
+}
+
+// genReset writes the reset function for one source file.
+func genReset(rel string, src []byte, fn string) ([]byte, error) {
+	dir := filepath.ToSlash(filepath.Dir(rel))
+	fset := token.NewFileSet()
+	f, err := parser.ParseFile(fset, rel, src, parser.SkipObjectResolution)
+	if err != nil {
+		return nil, err
+	}
+	text := func(n ast.Node) string {
+		return string(src[fset.Position(n.Pos()).Offset:fset.Position(n.End()).Offset])
+	}
+	imports := map[string]string{} // local name -> import line
+	for _, spec := range f.Imports {
+		p := strings.Trim(spec.Path.Value, "\"`")
+		name := p[strings.LastIndex(p, "/")+1:]
+		if spec.Name != nil {
+			name = spec.Name.Name
+		}
+		sw, ok := globalSwaps[p]
+		if ds, ok2 := dirSwaps[dir]; ok2 {
+			if s2, ok3 := ds[p]; ok3 {
+				sw, ok = s2, true
+			}
+		}
+		if ok {
+			p = sw[1]
+			if spec.Name == nil {
+				name = sw[0]
+			}
+		}
+		imports[name] = fmt.Sprintf("%s %q", name, p)
+	}
+	used := map[string]bool{}
+	note := func(n ast.Node) {
+		ast.Inspect(n, func(x ast.Node) bool {
+			if se, ok := x.(*ast.SelectorExpr); ok {
+				if id, ok := se.X.(*ast.Ident); ok {
+					if _, ok := imports[id.Name]; ok {
+						used[id.Name] = true
+					}
+				}
+			}
+			return true
+		})
+	}
+	var body []string
+	for _, d := range f.Decls {
+		gd, ok := d.(*ast.GenDecl)
+		if !ok || gd.Tok != token.VAR {
+			continue
+		}
+		for _, sp := range gd.Specs {
+			vs := sp.(*ast.ValueSpec)
+			for i, nm := range vs.Names {
+				if nm.Name == "_" {
+					continue
+				}
+				switch {
+				case len(vs.Values) == len(vs.Names):
+					note(vs.Values[i])
+					body = append(body, fmt.Sprintf("\t%s = %s", nm.Name, text(vs.Values[i])))
+				case len(vs.Values) == 0 && vs.Type != nil:
+					note(vs.Type)
+					body = append(body, fmt.Sprintf("\t{\n\t\tvar zz %s\n\t\t%s = zz\n\t}", text(vs.Type), nm.Name))
+				}
+			}
+		}
+	}
+	var sb strings.Builder
+	fmt.Fprintf(&sb, "//go:build verif\n\n// Code generated from %s by the overlay generator. DO NOT EDIT.\n\npackage %s\n\n", rel, f.Name.Name)
+	var names []string
+	for n := range used {
+		names = append(names, n)
+	}
+	sort.Strings(names)
+	for _, n := range names {
+		fmt.Fprintf(&sb, "import %s\n", imports[n])
+	}
+	fmt.Fprintf(&sb, "\n// %s gives the package-level variables of %s their initial values again.\nfunc %s() {\n%s\n}\n", fn, filepath.Base(rel), fn, strings.Join(body, "\n"))
+	return []byte(sb.String()), nil
 }
 
 type edit struct {
@@ -217,6 +310,18 @@ func genOverlay(repo, verif, buildDir string) (string, string, error) {
 		h.Write(src)
 		if bytes.Contains(src, []byte("import \"C\"")) {
 			continue
+		}
+		if fn, ok := resetFuncs[rel]; ok {
+			if gen, err := genReset(rel, src, fn); err == nil {
+				dst := filepath.Join(filesDir, filepath.Dir(rel), "zz_verif_reset_"+filepath.Base(rel))
+				if old, err := os.ReadFile(dst); err != nil || !bytes.Equal(old, gen) {
+					os.MkdirAll(filepath.Dir(dst), 0o755)
+					if err := os.WriteFile(dst, gen, 0o644); err != nil {
+						return "", "", err
+					}
+				}
+				replace[filepath.Join(repo, filepath.Dir(rel), "zz_verif_reset_"+filepath.Base(rel))] = dst
+			}
 		}
 		out, changed, err := rewriteFile(rel, src)
 		if err != nil {
